@@ -235,6 +235,14 @@ func valueChild(out *Out, seed uint64, start, count, cfg int, tier string) {
 				desc = strings.Repeat(r.Pick([]string{"x", "é", "ab ", "日"}), 70+r.Intn(20)) + GenStr(r, StrOpts{MaxLen: 6})
 			case 3:
 				desc = r.Pick([]string{" ", "\n", " lead", "trail ", "l1\nl2", "${x}", "a\tb", " pad ", "with:colon", "back\\slash"})
+			case 4:
+				// multi-line: the first line decides, whatever follows
+				first := GenStr(r, StrOpts{Special: 10, NonASCII: 10, MaxLen: 12})
+				if r.Chance(1, 3) {
+					first = strings.Repeat(r.Pick([]string{"y", "\u00e9"}), 76+r.Intn(8))
+				}
+				desc = r.Pick([]string{"", " ", "\u00a0"}) + first + r.Pick([]string{"\n", "\r\n", " \n"}) +
+					strings.Repeat(r.Pick([]string{"long paragraph ", "z", "\u65e5"}), 3+r.Intn(40))
 			}
 			st := r.Pick(styleFamily)
 			vals = append(vals, common.RawValue{Value: v, Display: d, Description: desc, Style: st, Tag: r.Pick(tagFamily), Uid: r.Pick([]string{"", "", "uid://x"})})
